@@ -3,7 +3,7 @@
 // SPDX-License-Identifier: Apache-2.0 OR GPL-3.0-or-later
 
 use crate::frame::{ConnectPayload, Frame, Payload, PushPayload};
-use crate::loom::{Arc, AtomicBool, AtomicU32, AtomicWaker, Mutex, RwLock};
+use crate::loom::{Arc, AtomicBool, AtomicU32, AtomicWaker, Mutex, Ordering, RwLock};
 use crate::timing::{OptionalDuration, TimestampProvider};
 use crate::ws::{Message, WebSocket};
 use crate::{
@@ -757,6 +757,14 @@ impl<S: WebSocket, T: TimestampProvider> Task<S, T> {
         let removed = flows.remove(&flow_id);
         drop(flows);
         if let Some(removed) = removed {
+            // Like closing a TCP socket with unread data: even if our side was shut down
+            // properly (in which case `close_flow_local` sends nothing), the peer must learn
+            // that nobody will read what it sent or grant it any more credit, or its writer
+            // may wait forever.
+            if dropped.unread && dropped.finish_sent.load(Ordering::Acquire) {
+                debug!("stream dropped with unread data");
+                self.tx_msg_tx.send(Frame::new_reset(flow_id).into()).ok();
+            }
             self.close_flow_local(removed, flow_id, false);
         }
     }
